@@ -72,16 +72,25 @@ class PristineClient:
     def __init__(self):
         self.proc = None
         self.calls = 0
+        self.owner = os.getpid()
+
+    def _alive(self):
+        if self.proc is None:
+            return False
+        if os.getpid() != self.owner:
+            return True        # inherited through fork: only the owner may poll its child
+        return self.proc.poll() is None
 
     def _start(self):
         env = dict(os.environ)
         env["PYTHONDONTWRITEBYTECODE"] = "1"
+        self.owner = os.getpid()
         self.proc = subprocess.Popen([sys.executable, "-m", "sim.pristine"], cwd=VERIF, env=env,
                                      stdin=subprocess.PIPE, stdout=subprocess.PIPE)
 
     def call(self, module, function, *args):
         for attempt in (0, 1):
-            if self.proc is None or self.proc.poll() is not None:
+            if not self._alive():
                 self._start()
             try:
                 _write(self.proc.stdin, (module, function, args))
@@ -112,11 +121,40 @@ _client = None
 
 
 def client() -> PristineClient:
+    """One server per simulation worker.  A run executing in a forked child of the worker
+    inherits the worker's client (and the pipes to its server) and uses it - children run one
+    at a time; any other process gets its own."""
     global _client
-    if _client is None or _client_pid[0] != os.getpid():
-        _client = PristineClient()     # one server per simulation process
-        _client_pid[0] = os.getpid()
+    me = os.getpid()
+    if _client is not None and _client_pid[0] != me and _client_pid[0] == os.getppid() \
+            and _client.proc is not None:
+        return _client
+    if _client is None or _client_pid[0] != me:
+        _client = PristineClient()
+        _client_pid[0] = me
     return _client
+
+
+def warm(own=False):
+    """Start the server now (called by a process before it forks its first run).  own=True:
+    never share an inherited server (pool workers are forked from the main process, which has
+    one of its own: sixteen workers must not talk through one pipe)."""
+    global _client
+    if own and (_client is None or _client_pid[0] != os.getpid()):
+        _client = PristineClient()
+        _client_pid[0] = os.getpid()
+    c = client()
+    if not c._alive():
+        c._start()
+    return c
+
+
+def reset_after_child_failure():
+    """A child died while possibly in the middle of a request: drop the server so that the
+    next run does not read a stale reply."""
+    global _client
+    if _client is not None and _client_pid[0] == os.getpid():
+        _client.close()
 
 
 _client_pid = [None]
